@@ -102,14 +102,27 @@ pub fn eval_single(c: &Single) -> (Vec<Finding>, &'static str) {
     let r = par::catch(|| {
         let mut h = ChannelHandler::default();
         let mut outs = vec![];
+        // the reassembled message sent on as it is (an echo / a relay): must be the same packets
+        let mut echo: Option<Vec<u8>> = None;
         for p in &packets {
-            outs.push(h.handle_packet(p).map(|m| (m.channel, m.command.encode(), m.payload)));
+            let m = h.handle_packet(p);
+            if let Some(m) = &m {
+                let mut again: Vec<u8> = vec![];
+                if m.clone().send(&mut again).is_ok() {
+                    echo = Some(again);
+                }
+            }
+            outs.push(m.map(|m| (m.channel, m.command.encode(), m.payload)));
         }
-        (outs, h.verif_snapshot().len())
+        (outs, h.verif_snapshot().len(), echo)
     });
     match r {
         Err(p) => bad(&format!("panic-in-receiver/site={}", par::panic_site(&p)), p),
-        Ok((outs, left)) => {
+        Ok((outs, left, echo)) => {
+            match echo {
+                Some(e) if e != wire => bad("resent-message-differs", format!("the message as delivered by the handler, sent again, is written as {} bytes that differ from the {} bytes it arrived as (first difference at byte {:?})", e.len(), wire.len(), e.iter().zip(wire.iter()).position(|(a, b)| a != b))),
+                _ => {}
+            }
             for (i, o) in outs.iter().enumerate() {
                 let last = i + 1 == outs.len();
                 match (o, last) {
@@ -545,7 +558,7 @@ pub fn run(ctx: &Ctx) -> Result<Run, String> {
     stats.samples.push(json!({"starve": sv[sv.len() / 2]}));
     let mut run = Run::from_stats(
         "model_checking",
-        "single channel: every payload length 0..7700 and 65535/65536/70000 (all 9 commands x 4 channel ids at the boundary lengths, rotating command/channel and 3 content patterns elsewhere): written bytes parsed by the harness (64-byte packets, header layout, sequence numbers, zero padding, packet count) and fed to a fresh receiver; interleavings: stateright BFS whose state is the real ChannelHandler (cloned via the verif hook) plus the next-packet index per stream, over all combinations of 2, 3 and 4 concurrently transmitting channels with payload lengths from {0,57,58,116,117,175,234} (1..4 packets; thorough adds streams of 5 and 6 packets for 2 and 3 channels), channels sending two messages back to back, and one stray continuation packet for an idle channel at any point; deduplicated on (indices, hook snapshot); run twice with different thread counts; cross-checked by a hook-free enumeration of all complete interleavings for 2 and 3 channels; starvation: a 3-packet message held back after its first / second packet while other channels send every number of packets 0..300 (thorough 0..1100) and 1024, 2048, 4096, 10000 as whole messages in three traffic shapes (maximal messages, two channels alternating single packets, 2-packet messages), each of which must be delivered too",
+        "single channel: every payload length 0..7700 and 65535/65536/70000 (all 9 commands x 4 channel ids at the boundary lengths, rotating command/channel and 3 content patterns elsewhere): written bytes parsed by the harness (64-byte packets, header layout, sequence numbers, zero padding, packet count) and fed to a fresh receiver, and the message the receiver delivers is sent again (must be written as the same packets); interleavings: stateright BFS whose state is the real ChannelHandler (cloned via the verif hook) plus the next-packet index per stream, over all combinations of 2, 3 and 4 concurrently transmitting channels with payload lengths from {0,57,58,116,117,175,234} (1..4 packets; thorough adds streams of 5 and 6 packets for 2 and 3 channels), channels sending two messages back to back, and one stray continuation packet for an idle channel at any point; deduplicated on (indices, hook snapshot); run twice with different thread counts; cross-checked by a hook-free enumeration of all complete interleavings for 2 and 3 channels; starvation: a 3-packet message held back after its first / second packet while other channels send every number of packets 0..300 (thorough 0..1100) and 1024, 2048, 4096, 10000 as whole messages in three traffic shapes (maximal messages, two channels alternating single packets, 2-packet messages), each of which must be delivered too",
         true,
         stats,
     );
